@@ -71,7 +71,17 @@ func callNames(c *ssa.CallCommon) []string {
 			}
 		}
 		add("$dynamic")
-	case *ssa.Call, *ssa.Phi:
+	case *ssa.Call:
+		if f := v.Call.StaticCallee(); f != nil {
+			ns := funcNames(f)
+			n := ns[0]
+			if len(ns) > 1 {
+				n = ns[1]
+			}
+			add(fmt.Sprintf("$result.%s.0", n))
+		}
+		add("$dynamic")
+	case *ssa.Phi:
 		add("$dynamic")
 	}
 	if len(out) == 0 {
